@@ -70,6 +70,8 @@ func main() {
 			timedOps(o, seed, n, corpus+"/fens.txt")
 		case "conc":
 			concOps(o, seed, n)
+		case "deep":
+			deepOps(o, seed, n, corpus+"/fens.txt")
 		case "search":
 			searchOps(o, seed, n, tier, corpus+"/fens.txt")
 		default:
